@@ -52,3 +52,13 @@ package runs
 //@   trusted
 //@   assigns computed
 //@   records resultSaved(r, old(result.Name), old(result.Value), old(result.Category), old(result.Input), old(result.NodeUUID))
+
+// ---- C10 / C01: run location
+//@ func (r *run) PathLocation
+//@   nopanic
+//@   reveal runRep, FlowRep
+//@   requires runRep(r)
+//@   assigns nothing
+//@   ensures [located] isnil(result2) ==> (typeis(result0, *step) && result0.(*step) != nil && !isnil(result1) && nodeRep(result1) && !isnil(r.flow) && result0 == r.path[len(r.path) - 1] && result1 == r.flow.(*definition.flow).nodeMap[result0.(*step).nodeUUID])
+//@   ensures [not_located] !isnil(result2) ==> (isnil(result0) && isnil(result1))
+//@   ensures [no_flow] isnil(r.flow) ==> !isnil(result2)
